@@ -112,7 +112,17 @@ func c10R1(c *Ctx, info *effectsInfo) {
 	const rule = "R1.noretain"
 	r := c.Run
 	r.Rule(rule, "decoders never store a value that reaches their input slice into the receiver (a decoded frame must not change when the caller overwrites the buffer)")
+	noRetainObligations(c, info, rule, nil)
+}
+
+// noRetainObligations: for every decoder root accepted by pick (nil: all), the receiver keeps no reference into an
+// input parameter.
+func noRetainObligations(c *Ctx, info *effectsInfo, rule string, pick func(*ssa.Function) bool) {
+	r := c.Run
 	for _, f := range decoderRoots(info) {
+		if pick != nil && !pick(f) {
+			continue
+		}
 		s := info.A.Sums[f]
 		for _, pi := range inputParams(f) {
 			key := fmt.Sprintf("%s/%s", funcKey(f), f.Params[pi].Name())
@@ -389,36 +399,7 @@ func c10R6(c *Ctx, info *effectsInfo) {
 		r.Unknown(ruleC, "band", "", "package band loaded", "missing")
 		return
 	}
-	bandIface, _ := sp.Pkg.Scope().Lookup("Band").(*types.TypeName)
-	for _, f := range info.Funcs {
-		if !isUserFunc(f) || f.Pkg != sp || f.Signature.Recv() != nil {
-			continue
-		}
-		res := f.Signature.Results()
-		if res.Len() == 0 || bandIface == nil || !types.Identical(res.At(0).Type(), bandIface.Type()) {
-			continue
-		}
-		s := info.A.Sums[f]
-		key := funcKey(f)
-		var shared []string
-		for _, e := range s.RetReach[0].Sorted() {
-			if e != "F" {
-				shared = append(shared, e)
-			}
-		}
-		for _, e := range s.RetLoc[0].Sorted() {
-			if e != "F" {
-				shared = append(shared, "loc:"+e)
-			}
-		}
-		if len(shared) > 0 {
-			r.Bad(ruleC, key, c.Prog.Rel(f.Pos()), "reach(result) ⊆ {Fresh}", "the returned band reaches "+strings.Join(shared, ",")+" (shared between all bands built by this constructor)")
-		} else if !s.RetReach[0].Has("F") {
-			r.Unknown(ruleC, key, c.Prog.Rel(f.Pos()), "reach(result) ⊆ {Fresh}", "constructor returns no allocated object (summary empty)")
-		} else {
-			r.OK(ruleC, key, c.Prog.Rel(f.Pos()), "reach(result) ⊆ {Fresh}", "loc="+s.RetLoc[0].String()+" reach="+s.RetReach[0].String(), true)
-		}
-	}
+	freshBandObligations(c, info, ruleC)
 	writers := globalWriters(info)
 	for _, name := range sortedStr(sp.Members) {
 		g, ok := sp.Members[name].(*ssa.Global)
@@ -692,3 +673,51 @@ func c10R7(c *Ctx, info *effectsInfo) {
 }
 
 var _ = load.ModPath
+
+// freshBandObligations: every constructor of package band (a function returning the Band interface) returns memory
+// that is fresh per call and reaches no package-level variable.
+func freshBandObligations(c *Ctx, info *effectsInfo, ruleC string) {
+	r := c.Run
+	sp := c.Prog.SSAPkg("band")
+	if sp == nil {
+		r.Unknown(ruleC, "band", "", "package band loaded", "missing")
+		return
+	}
+	bandIface, _ := sp.Pkg.Scope().Lookup("Band").(*types.TypeName)
+	for _, f := range info.Funcs {
+		if !isUserFunc(f) || f.Pkg != sp || f.Signature.Recv() != nil {
+			continue
+		}
+		res := f.Signature.Results()
+		if res.Len() == 0 || bandIface == nil || !types.Identical(res.At(0).Type(), bandIface.Type()) {
+			continue
+		}
+		s := info.A.Sums[f]
+		key := funcKey(f)
+		var shared []string
+		for _, e := range s.RetReach[0].Sorted() {
+			if e != "F" {
+				shared = append(shared, e)
+			}
+		}
+		for _, e := range s.RetLoc[0].Sorted() {
+			if e != "F" {
+				shared = append(shared, "loc:"+e)
+			}
+		}
+		if len(shared) > 0 {
+			r.Bad(ruleC, key, c.Prog.Rel(f.Pos()), "reach(result) ⊆ {Fresh}", "the returned band reaches "+strings.Join(shared, ",")+" (shared between all bands built by this constructor)")
+		} else if !s.RetReach[0].Has("F") {
+			r.Unknown(ruleC, key, c.Prog.Rel(f.Pos()), "reach(result) ⊆ {Fresh}", "constructor returns no allocated object (summary empty)")
+		} else {
+			r.OK(ruleC, key, c.Prog.Rel(f.Pos()), "reach(result) ⊆ {Fresh}", "loc="+s.RetLoc[0].String()+" reach="+s.RetReach[0].String(), true)
+		}
+	}
+}
+
+// ruleFreshBands is freshBandObligations for checks other than C10: the per-configuration tables a band property
+// talks about are per-object only if constructors share nothing.
+func ruleFreshBands(c *Ctx, rule string) {
+	c.Run.Rule(rule, "every band constructor returns memory that is fresh per call and reaches no package-level variable: the tables of one configuration cannot be changed through another band object")
+	freshBandObligations(c, effectsFor(c.Prog), rule)
+}
